@@ -21,7 +21,7 @@ func init() {
 	Register(&Spec{
 		ID:        "C07",
 		Technique: "runtime monitoring: scope-pruning / scope-perturbation relation — evaluation under the full scope, under only the reported root names, and with unreported variables changed must agree in value and diagnostics",
-		Rule: "each case is a generated expression (native; JSON-syntax strings, arrays and object keys as templates), or a body decoded under an hcldec spec (incl. bodies with dynamic blocks, whose expansion and decoding variable sets are pruned independently); the scope holds decoy variables, including ones named like the iterator names the program binds; " +
+		Rule: "each case is a generated expression (native; JSON-syntax strings, arrays and object keys as templates), or a body decoded under an hcldec spec (incl. bodies with dynamic blocks, whose expansion and decoding variable sets are pruned independently); four-level nested dynamic blocks with static siblings after the nested block and globals named like the iterators; transform expressions without a context of their own; the scope holds decoy variables, including ones named like the iterator names the program binds; " +
 			"non-trivial = the program reports >= 1 variable and binds or shadows >= 1 name, or reports >= 2 variables; distinct by program hash. A separate precision clause runs programs whose bound names are globally fresh and requires that none of them is reported.",
 		Assumptions: []string{"diagnostics are compared by severity, summary, subject range and detail with the 'Did you mean' suggestion removed (the suggestion depends on which names are in scope by design)"},
 		Quick:       Plan{Batches: 16, PerBatch: 2500, MinNonTrivial: 8000},
